@@ -55,8 +55,15 @@ func newDisjunctionSearcher(indexReader search.Reader,
 		optionsDisjunctionOptimizable(options) {
 		rv, err := optimizeCompositeSearcher("disjunction:unadorned",
 			indexReader, qsearchers, options)
-		if err != nil || rv != nil {
-			return rv, err
+		if err != nil {
+			return nil, err
+		}
+		if rv != nil {
+			if min > 0 {
+				// keep reporting the minimum of the disjunction this replaces
+				return &disjunctionMinSearcher{Searcher: rv, min: min}, nil
+			}
+			return rv, nil
 		}
 	}
 
@@ -66,6 +73,27 @@ func newDisjunctionSearcher(indexReader search.Reader,
 	}
 	return newDisjunctionSliceSearcher(qsearchers, min, scorer, options,
 		limit)
+}
+
+// disjunctionMinSearcher stands in for a disjunction that was replaced by its
+// optimized form but has to satisfy at least min of its clauses: a
+// BooleanSearcher asks its should searcher for Min() to learn whether the
+// should part is optional, the optimized searcher alone would answer 0.
+type disjunctionMinSearcher struct {
+	search.Searcher
+	min int
+}
+
+func (s *disjunctionMinSearcher) Min() int {
+	return s.min
+}
+
+func (s *disjunctionMinSearcher) Optimize(kind string, octx segment.OptimizableContext) (
+	segment.OptimizableContext, error) {
+	if o, ok := s.Searcher.(segment.Optimizable); ok {
+		return o.Optimize(kind, octx)
+	}
+	return nil, nil
 }
 
 const optionScoringNone = "none"
